@@ -876,7 +876,7 @@ class C16(fw.Check):
             'worker process; a seeded controller performs one action at a time (arrive c / start c\'s pending off-loop '
             'call / un-park c / let c\'s task finish), chosen among those available with round-specific weights '
             '(uniform, flood, drain, park, starve), order (random, fifo, lifo) and burst rate, and lets the system '
-            'settle in between: 6 (quick) / 40 (thorough) sessions x 12 / 30 rounds of 1..16 (once 64, 32) requests + '
+            'settle in between: 6 (quick) / 100 (thorough) sessions x 12 / 30 rounds of 1..16 (once 64, 32) requests + '
             'descriptor-race sessions (first requests of one application with every thread parked in list()); a case '
             '= one round, distinct by its requests AND the performed action list, non-trivial when >= 2 requests and '
             '>= 1 healthy.  (b) TIMED sessions (as before): 2..6 batches of 1..64 concurrent Engine.apply calls with '
@@ -1577,7 +1577,7 @@ class C16(fw.Check):
         return plans
 
     def _ctl_plans(self):
-        nsessions, nrounds, nrace = (6, 12, 2) if self.quick else (40, 30, 8)
+        nsessions, nrounds, nrace = (6, 12, 2) if self.quick else (100, 30, 8)
         plans = [self._ctl_race_session(f'crace{i}') for i in range(nrace)]
         for i in range(nsessions):
             sizes = None
